@@ -326,6 +326,24 @@ def analyse_block_loop(b, t, op_mn):
         if cdiv is not None or nxt is None:
             break
         src = nxt
+    if cdiv is not None and op_const(cdiv["b"]) == S:
+        # `(size - size % S) / S` is size / S written with the remainder taken off first: read through to `size`
+        al_ = op_local(cdiv["a"])
+        ds_ = b.defs().get(al_, []) if al_ is not None else []
+        if len(ds_) == 1 and ds_[0][0] == "assign":
+            rv_ = ds_[0][3]["rv"]
+            if rv_["k"] == "use" and core.op_place(rv_["op"]) is not None and rv_["op"]["place"]["proj"]:
+                # `.0` of a checked subtraction
+                d2_ = b.defs().get(rv_["op"]["place"]["local"], [])
+                rv_ = d2_[0][3]["rv"] if len(d2_) == 1 and d2_[0][0] == "assign" else rv_
+            if rv_["k"] == "binop" and rv_["op"].startswith("Sub"):
+                bl_ = op_local(rv_["b"])
+                db_ = b.defs().get(bl_, []) if bl_ is not None else []
+                if len(db_) == 1 and db_[0][0] == "assign" and db_[0][3]["rv"]["k"] == "binop" and db_[0][3]["rv"]["op"] == "Rem" and op_const(db_[0][3]["rv"]["b"]) == S:
+                    ra_ = core.Flow(b).roots_of_operand(rv_["a"])
+                    rb_ = core.Flow(b).roots_of_operand(db_[0][3]["rv"]["a"])
+                    if ra_ and set(ra_) == set(rb_):
+                        cdiv = dict(cdiv, a=rv_["a"])
     if cdiv is None or op_const(cdiv["b"]) != S:
         errs.append("the block counter is not size / %d (the stride of the template): %s" % (S, core.rv_str(cdiv) if cdiv else "no division found"))
     else:
@@ -360,6 +378,34 @@ def analyse_block_loop(b, t, op_mn):
             nz = tst.f if c.op == "Eq" else tst.t
             if b.edge_dominates((tst.bb, nz), asm_bb) and "const" not in [a[0] for a in c.a if a[0] == "const" and a[1] != 5]:
                 guarded = True
+    if not guarded and cdiv is not None:
+        # the same guarantee stated on the size: `if size < S { return }` (or `size >= S`, `size > S - 1`) before the division
+        try:
+            sz_roots = set(core.Flow(b).roots_of_operand(cdiv["a"]))
+        except Exception:
+            sz_roots = set()
+        sz_params = {r[1] for r in sz_roots if r[0] == "param"}
+        for tst in tl:
+            c = tst.cond
+            if c is None or c.kind != "cmp" or c.op not in ("Lt", "Le", "Gt", "Ge"):
+                continue
+            for (x_raw, k_raw, flip) in ((c.ra, c.rb, False), (c.rb, c.ra, True)):
+                try:
+                    k_ = eval_int(b, k_raw, {})
+                except Exception:
+                    continue
+                if not isinstance(k_, int) or isinstance(k_, bool):
+                    continue
+                xr = {r[1] for r in core.Flow(b).roots_of_operand(x_raw) if r[0] == "param"} if x_raw["k"] != "const" else set()
+                if not xr or not (xr <= sz_params) or calls_of(Atoms(b).of_operand(x_raw)) - {"len"}:
+                    continue
+                op_ = c.op
+                if flip:
+                    op_ = {"Lt": "Gt", "Le": "Ge", "Gt": "Lt", "Ge": "Le"}[op_]
+                # edge on which size >= lower
+                edge, lower = {"Lt": (tst.f, k_), "Ge": (tst.t, k_), "Gt": (tst.t, k_ + 1), "Le": (tst.f, k_ + 1)}[op_]
+                if edge is not None and lower >= S and b.edge_dominates((tst.bb, edge), asm_bb):
+                    guarded = True
     if not guarded:
         errs.append("the asm block is not dominated by a `count != 0` test (dec would wrap and the loop would run 2^64 times)")
     if not (iv["k"] == "const" and op_const(iv) == 0):
@@ -925,7 +971,9 @@ def check_utf8(ctx, res, config="all"):
         from . import r3
 
         s = r3.radix_summary(facts, b, {})
-        if s != (2, 36):
+        if s is not None and len(s) == 1:
+            res.note("R4-utf8-producer: the radix of to_str_radix_reversed is range-guarded, but the bounds are a promoted constant the facts do not carry - 2..=36 is not decided")
+        elif s != (2, 36):
             errs.append("radix range 2..=36 is not enforced before the digit->ASCII mapping (found %s)" % (s,))
         # (2) mapping loop: switch on Lt(*r, 10): arms add 48 / 87
         adds = {}
@@ -1216,6 +1264,20 @@ def eval_local(b, l, env, depth):
         nm = callee_name(t)
         nargs = 1 if nm in ("to_usize", "to_u64", "to_u32", "unwrap", "expect", "from", "into", "try_from", "try_into", "ok") else len(t["args"])
         args = [eval_int(b, a, env, depth) for a in t["args"][:nargs]]
+        if nm in ("leading_zeros", "trailing_zeros", "count_ones", "count_zeros") and "core::num" in (callee(t) or ""):
+            import re as _re
+
+            m_ = _re.search(r"impl ([ui])(\d+|size)>", callee(t) or "")
+            if m_ and isinstance(args[0], int) and not isinstance(args[0], bool):
+                w_ = 64 if m_.group(2) == "size" else int(m_.group(2))
+                v_ = args[0] & ((1 << w_) - 1)
+                if nm == "leading_zeros":
+                    return w_ - v_.bit_length()
+                if nm == "trailing_zeros":
+                    return w_ if v_ == 0 else (v_ & -v_).bit_length() - 1
+                if nm == "count_ones":
+                    return bin(v_).count("1")
+                return w_ - bin(v_).count("1")
         if nm == "div_rem":
             return (args[0] // args[1], args[0] % args[1])
         if nm == "div_ceil":
